@@ -6,7 +6,9 @@
 
      SetLocator(l)   the application assigns signer.key_locator_name
      SignData        the signer signs an ordinary Data packet (any first use of the object)
-     Issue(fn)       self_sign / sign_req / derive_cert with this signer
+     Issue(fn)       self_sign / sign_req / derive_cert / new_cert with this signer.  Issuing must not
+                     reconfigure the signer it is given: loc is unchanged by it (the harness reads the
+                     configuration back after every step and the trace module compares it with loc)
 
    loc      the locator configured in the signer (an identifier; the executor maps identifiers to
             concrete names of different shapes, so a wrong locator also shows in the layout)
@@ -16,11 +18,12 @@
             (checked by the harness as a sensitivity witness of this module).
    issued   the certificates so far: [fn, kl] with kl = locator found in the certificate       *)
 EXTENDS Integers, Sequences, TLC
-CONSTANTS NLoc, MaxSteps, DevCache
+CONSTANTS NLoc, MaxSteps, DevCache, Fns      \* Fns: the issuing functions enumerated, a subset of AllFns
 
 VARIABLES loc, cache, issued, steps
 vars == <<loc, cache, issued, steps>>
-Fns == {"self_sign", "sign_req", "derive"}
+AllFns == {"self_sign", "sign_req", "derive", "new_cert"}
+ASSUME Fns \subseteq AllFns
 NoCache == 0
 
 InitWith(l) == loc = l /\ cache = NoCache /\ issued = <<>> /\ steps = 0
